@@ -25,6 +25,7 @@ A payload descriptor is a dict:
                 ("repeat-execute", descriptor, period)   execute another payload again and again
                 ("stubborn", k, period)       (asyncio) heartbeat loop absorbing the first k cancellations
                 ("repeat-adopt", d, period, n) (threading) adopt n copies of d, period apart
+                ("wait-private",)             (coroutines) wait for an object nobody else refers to
                 ("section-adopt", descriptor) adopt another payload from inside a section
                 ("call", name)                call env.shared[name](env)
 
@@ -369,6 +370,10 @@ class Kit:
                         continue
                     if op == "sleep":
                         await asyncio.sleep(step[1])
+                    elif op == "wait-private":
+                        # waits for something that nobody else refers to (a reply that
+                        # never comes): only the task itself keeps the future alive
+                        await asyncio.get_running_loop().create_future()
                     elif op == "forever":
                         while True:
                             await asyncio.sleep(step[1])
@@ -436,6 +441,8 @@ class Kit:
                         continue
                     if op == "sleep":
                         await trio.sleep(step[1])
+                    elif op == "wait-private":
+                        await trio.Event().wait()
                     elif op == "forever":
                         while True:
                             await trio.sleep(step[1])
